@@ -24,6 +24,7 @@ RULE = (
     "completed); every written value was sent; no value is written more often than sent; all tasks finish without error. Non-trivial = some "
     "schedule had a send to node 1 complete while a flush write was blocked; distinct = distinct configuration."
     ' Round 5: senders may set the ack flag.'
+    ' Round 6: `keys=collide` (ids whose digits concatenate equally) and `prior` (earlier quiet wakes already delivered the racing values).'
 )
 ASSUMPTIONS = [
     "suspension points of send/flush are transport writes (plus whatever the loop needs to settle: a schedule step waits until six loop iterations pass without progress)",
